@@ -207,6 +207,34 @@ Proof. intros Ht Htr H1 Hk E idx. split; [apply argsort_perm|]. unfold eig_sorte
   change (take idx (mkeout m w V)) with (mkeout (length idx) (fun j => w (nth j idx 0%nat)) (fun i j => V i (nth j idx 0%nat))) in E.
   rewrite L in E. apply (select_SM (fun a b => leb a b = true)) in E; auto. apply argsort_ascending; auto. Qed.
 
+(* the same for ANY permutation that sorts (the backend's argsort as an oracle: order inside ties unspecified) *)
+Definition ArgsortSpec (leb : R -> R -> bool) (m : nat) (w : nat -> R) (idx : list nat) : Prop :=
+  Permutation idx (seq 0 m) /\ StronglySorted (lekey leb w) idx.
+Lemma argsort_meets_spec leb m w : (forall a b, leb a b = true \/ leb b a = true) ->
+  (forall a b c, leb a b = true -> leb b c = true -> leb a c = true) -> ArgsortSpec leb m w (argsort leb m w).
+Proof. intros Ht Htr. split; [apply argsort_perm|apply argsort_sorted; auto]. Qed.
+Theorem eig_take_pairs n A (o0 : eout) idx k wh o : EigPairs n A o0 -> (forall x, In x idx -> (x < ek o0)%nat) ->
+  eig_take idx o0 k wh = Some o -> EigPairs n A o.
+Proof. intros H Hr E. unfold eig_take in E. eapply slice_pairs; [|exact E]. apply take_pairs; auto. Qed.
+Theorem eig_take_selects leb m (w : nat -> R) V idx k wh o : (forall a b, leb a b = true \/ leb b a = true) ->
+  ArgsortSpec leb m w idx -> (1 <= k)%nat -> (k <= m)%nat -> eig_take idx (mkeout m w V) (Z.of_nat k) wh = Some o ->
+  ek o = k /\
+  match wh with
+  | LM => (forall j, (j < k)%nat -> ew o j = w (nth (m - k + j) idx 0%nat)) /\
+          forall i j, (i < m - k)%nat -> (j < k)%nat -> leb (w (nth i idx 0%nat)) (ew o j) = true
+  | SM => (forall j, (j < k)%nat -> ew o j = w (nth j idx 0%nat)) /\
+          forall i j, (k <= i)%nat -> (i < m)%nat -> (j < k)%nat -> leb (ew o j) (w (nth i idx 0%nat)) = true
+  end.
+Proof. intros Ht [Hp Hs] H1 Hk E. unfold eig_take in E.
+  assert (L : length idx = m) by (rewrite (Permutation_length Hp); apply seq_length).
+  change (take idx (mkeout m w V)) with (mkeout (length idx) (fun j => w (nth j idx 0%nat)) (fun i j => V i (nth j idx 0%nat))) in E.
+  rewrite L in E.
+  assert (Ha : ascending (fun a b => leb a b = true) m (fun j => w (nth j idx 0%nat))).
+  { intros i j Hij Hj. apply (sorted_nth leb Ht w idx Hs); [exact Hij|rewrite L; exact Hj]. }
+  destruct wh.
+  - apply (select_LM (fun a b => leb a b = true)) in E; auto.
+  - apply (select_SM (fun a b => leb a b = true)) in E; auto. Qed.
+
 (* ---------- triangular rule ---------- *)
 Lemma sum_sub m (f g : nat -> R) : sum m (fun i => f i - g i) = sum m f - sum m g.
 Proof. induction m; simpl; [ring|rewrite IHm; ring]. Qed.
